@@ -4,8 +4,9 @@ Correspondence: the complete procedures are compared with the Lean model (Y0.Mod
 the input validators (error category), and for accepted inputs FAIL / Zero / the answer of Algorithm 2 (`ctftr
 uncond`: expression and simplified event, plus the flag `CtfTr.ctfTRuInClass` = "inside the decidable hypotheses of the
 proved value clause ctfTRu_sound_partial": an in-class case whose value the exact oracle rejects is a disagreement,
-whatever known-finding class its signature falls in) resp. Algorithm 3 (`ctftr cond`: the derivation of D* from the ancestral
-components, Algorithm 2 on D* with its own validator, the Fraction of line 4, the returned event, the five final checks;
+whatever known-finding class its signature falls in) resp. Algorithm 3 (`ctftr cond`: the flag `CtfTr.ctfTRInClass` =
+"inside the decidable hypotheses of the proved value clause ctfTR_sound_partial", tied to the oracle in the same way; the
+derivation of D* from the ancestral components, Algorithm 2 on D* with its own validator, the Fraction of line 4, the returned event, the five final checks;
 crashes of the known findings included, as category `internal`).  Expressions are compared structurally, then by exact
 value on the case's model family; events as multisets.  The models of SIMPLIFY, the ctf-factor factorisation and Tian's
 IDENTIFY are the `ctf` and `tian` families'.
@@ -84,12 +85,23 @@ ASSUMPTIONS = [
     "reflexive). The theorem is TIED to the oracle on every run: the driver reports CtfTr.ctfTRuInClass for every answered "
     "unconditional case, and an in-class case on which the exact oracle rejects the value is a disagreement, whatever "
     "known-finding class its signature falls in (seed 0: 4814 of 6728 answered unconditional cases are in the class)",
-    "value clause, Algorithm 3: ctfTR_sound is OPEN; ctfTR_sound_of_parts reduces it (normalisation on top of ctfTRu_sound_fun) "
-    "to two named identities about J(tau) = P*_tau(D* = tau): sum over V(D*) minus (V(Y*) u V(X*)) of J times c = P*(y*, x*) and "
-    "sum over V(D*) minus V(X*) of J times c = P*(x*), c the probability of the conditions whose ancestral component holds no "
-    "outcome (marginalisation of the valueless ancestors + independence across ancestral components, Correa et al. Lemma 3); "
-    "false of the current code on the open findings cond:value:outcome-lookup-miss / outcome-also-condition; decided on "
-    "every run by the correspondence with the complete model of Algorithm 3 + the exact oracle",
+    "value clause, Algorithm 3: PROVED (Props/C09Sound ctfTR_sound_partial; both identities of ctfTR_sound_of_parts discharged: "
+    "composition axiom for the edges cut at conditioned ancestors, marginalisation of the valueless ancestors and of the "
+    "outcomes, independence of the ancestral components without an outcome; J = Q[V(D*)]) for validated queries built by the "
+    "public wrapper inside the decidable class CtfTr.ctfTRSoundClass: (a) one world - across ALL ancestral components a vertex "
+    "is named by one counterfactual variable only; (b) every outcome is found in the components under its own name "
+    "(OutcomesFound), two outcomes over one vertex are the same item (an outcome may share its vertex with a condition); (c) no query "
+    "variable intervenes on itself or twice on one vertex with different values; (d) no literal subscript of the query names a "
+    "vertex of the components unless it names a condition (else one of the two sums of line 4 captures it) - a predicate on "
+    "target graph and query only; that the simplified D* (valueless ancestors as free variables) is then in Algorithm 2's "
+    "class ctfSoundClass is proved (dstar_in_ctfSoundClass); for every compatible family of "
+    "functional SCMs in which the conditions have positive probability and every valuation that reads the query's values and "
+    "literal subscripts (Ctf.EventReading on outcomes ++ conditions; exists iff no name receives two value symbols). OPEN "
+    "outside the class: FALSE on the findings cond:value:* (two_values / multi_world / literal_bound / outcome-lookup-miss / "
+    "outcome-also-condition); not decided for multi-world queries that Algorithm 3 happens to answer correctly. The theorem is "
+    "TIED to the oracle on every run: the driver reports CtfTr.ctfTRInClass for every answered conditional case, and an "
+    "in-class case on which the exact oracle rejects the value is a disagreement whatever known-finding class its signature "
+    "falls in",
     "reading of a valueless item of the QUERY: the oracle reads it as 'equal to its base value' (the item stays a free variable "
     "of the answer), C19 and the Lean theorems read it as 'no constraint'; the two agree when the query has no valueless "
     "item (the class of the tie); a valueless copy absorbed by a valued copy of the same variable is attributed to "
@@ -103,19 +115,28 @@ ASSUMPTIONS = [
     "exception can depend on the order of the ctf-factors (only with domain graphs that lack a bidirected edge of the target: "
     "stream dropped_bi, not compared); (b) the dict of the final checks keyed by base name keeps the LAST of two entries of a "
     "vertex named in two worlds, once with and once without a value (CtfTr.finalChecksOrderSensitive; the driver reports it "
-    "and then only the validator verdict is compared; never observed: such runs end in FAIL before line 4)",
+    "and then only the validator verdict is compared; PROVED impossible on an answer: ctfTR_simplified_binds_once - a vertex in two worlds makes Algorithm 2 answer FAIL before line 4)",
     "ctf_no_internal_error: false of the current code on four crash classes (known findings); PROVED for the unconditional "
     "procedure outside them (ctfTRu_no_internal_error_partial: validated input, no self-intervened variable together with a "
     "valueless variable, plain event variables as built by the public wrapper, every domain graph keeps the target's "
     "bidirected edges between non-policy variables and has no bidirected edge at a selection node => answer or FAIL, no "
-    "error); for Algorithm 3 PROVED outside its crash classes (ctfTR_no_internal_error_partial: validated input, plain query "
-    "variables, DomainsAgree, and "
-    "three decidable predicates on the input: OutcomesFound = every outcome is found in the ancestral components under its own "
-    "name, DstarOneWorld = D* names each vertex in one world, OutcomeNotCondition = no outcome shares its vertex with a "
-    "condition; the facts about Algorithm 2's expression Q - never Zero(), only graph vertices and variables of the domain "
-    "distributions - are proved: ctfTR_q_good). FALSE without OutcomesFound (known findings; Lean witness a3Miss); OPEN "
-    "whether DstarOneWorld / OutcomeNotCondition are needed (no exception was ever observed with OutcomesFound true); the "
-    "oracle reports every exception after validation",
+    "error); for Algorithm 3 PROVED outside ONE crash class, for domain distributions over plain variables "
+    "(ctfTR_no_internal_error_plain_partial: validated input, plain query variables, DomainsAgree, PopsPlain = the children of "
+    "every domain's PopulationProbability are plain Variables, as in the PP[pi](V) every case of this harness carries, and the "
+    "decidable predicate OutcomesFound = every outcome is found in the ancestral components under its own name; the facts "
+    "about Algorithm 2's expression Q - never Zero(), only graph vertices and variables of the domain distributions, and it "
+    "mentions the vertex of every found outcome - are proved: ctfTR_q_good, qCovers_of_popsPlain). FALSE without OutcomesFound "
+    "(known findings crash:ctfTR-derived-event-rejected / crash:ctfTR-final-check; Lean witness a3Miss; the harness's "
+    "syntactic miss_all / miss_some is exactly the complement of OutcomesFound, cross-checked against the model by "
+    "tools/c09_errsearch.py --sig). The two further classes of ctfTR_no_internal_error_partial are DECIDED: DstarOneWorld "
+    "(D* names each vertex in one world) is not needed for any distributions (ctfTR_no_internal_error_found_partial: a vertex "
+    "in two worlds is merged by the conversion to ctf-factor form or makes Algorithm 2 answer FAIL, so an answer binds every "
+    "vertex once: ctfTR_simplified_binds_once; in particular CtfTr.finalChecksOrderSensitive is false on every answer); "
+    "OutcomeNotCondition (no outcome shares its vertex with a condition) IS needed for arbitrary domain distributions - a "
+    "distribution that lists a counterfactual variable next to its vertex, PP[pi](X, Y, Y_x), makes P*(Y = y | Y = y') raise "
+    "KeyError from check 5 of the output check after both validators accepted the input (Lean witness a3Shared, confirmed on "
+    "the Python by tools/c09_popworld_witness.py; open finding crash:ctfTR-final-check:population-world, NOT reachable by "
+    "this harness's case format) - and is not needed under PopsPlain; the oracle reports every exception after validation",
     "failures on inputs with the syntactic signature of an open finding AND its kind of outcome (wrong value / wrong zero / "
     "exception class at a named check) are attributed to that finding by class key (17 keys; signature computed on the "
     "minimised query with the harness's own graph code); a different defect that only shows on such inputs with the same "
@@ -130,6 +151,7 @@ ASSUMPTIONS = [
     "nodes tested on all vertices, Zero replaced by FAIL, a larger D*, a stricter validator) keeps C09 as stated and is seen "
     "by the correspondence only (tools/c09_mutants.py lists these as `equiv`); inputs with an invalid topological order are "
     "outside the quantifier, so a validator that stops checking the order is not detected",
+    "theorem/oracle tie, THIS RUN: (filled in by the comparison with the model, see _tie_report)",
 ]
 LEANCHECK_MODULES = ["Y0.Model.CtfTr", "Y0.Props.C09", "Y0.Props.C09Sound"]
 EXHAUSTIVE = {"quick": False, "thorough": False}
@@ -925,9 +947,8 @@ def run_python(case):
                 fail = "non-zero expression returned without an event"
             else:
                 fail = _value_check(case, enc, ret_event, queried, cond)
-                if kind == "uncond":
-                    # verdict of the value clause alone, for the theorem/oracle tie (see _Out.__eq__)
-                    out.append("value_bad" if fail else "value_ok")
+                # verdict of the value clause alone, for the theorem/oracle tie (see _Out.__eq__)
+                out.append("value_bad" if fail else "value_ok")
                 if fail is None and kind == "uncond" and not _has_reflexive(queried):
                     fail = _event_check(case, ret_event)
     if "malformed" in case and vclass is None and fail is None and case["malformed"] not in ("overlap_cond", "target_tag_other_graph"):
@@ -968,6 +989,18 @@ def request(case):
     return C.enc(["ctftr", "cond", gs, doms, case["outcomes"], case["conditions"]])
 
 
+def _tie_report():
+    """keep the last entry of ASSUMPTIONS (copied into the evidence file at the end of a run) up to date with the measured
+    share of answered cases inside the classes of the two value theorems"""
+    st = _Out.stats
+    ASSUMPTIONS[-1] = (
+        "theorem/oracle tie, THIS RUN: unconditional: %d of %d answered cases in the class of ctfTRu_sound_partial "
+        "(%d contradicted by the oracle); conditional: %d of %d answered cases in the class of ctfTR_sound_partial "
+        "(%d contradicted by the oracle)" % (
+            st.get("in_theorem_class_uncond", 0), st.get("answered_uncond", 0), st.get("theorem_contradicted_uncond", 0),
+            st.get("in_theorem_class_cond", 0), st.get("answered_cond", 0), st.get("theorem_contradicted_cond", 0)))
+
+
 class _Out(list):
     """model output; equal to the Python's when the verdicts agree and (for an answer) the expressions have the same
     exact values on the case's family (or the same structure) and the simplified events are the same set"""
@@ -989,14 +1022,21 @@ class _Out(list):
         if not ev_ok:
             _Out.stats["mismatch"] += 1
             return False
+        kind = self[5] if len(self) > 5 else "uncond"
+        if len(self) > 4 and self[3] != "none":
+            _Out.stats["answered_" + kind] = _Out.stats.get("answered_" + kind, 0) + 1
         if len(self) > 4 and self[4] == "in_class":
             # THEOREM / ORACLE TIE: the model says the input satisfies the decidable hypotheses of the proved value clause
-            # (ctfTRu_sound_partial: every item valued, no self-intervened variable, ctfSoundClass, a reading exists); then the exact oracle must have accepted the value, whatever known-finding class
-            # the input's signature falls in.  A contradiction is reported as a disagreement with this concrete input.
-            _Out.stats["in_theorem_class"] = _Out.stats.get("in_theorem_class", 0) + 1
+            # (ctfTRu_sound_partial: every item valued, no self-intervened variable, ctfSoundClass, a reading exists;
+            # ctfTR_sound_partial: CtfTr.ctfTRSoundClass, a reading of the query's values and subscripts exists); then the
+            # exact oracle must have accepted the value, whatever known-finding class the input's signature falls in.  A
+            # contradiction is reported as a disagreement with this concrete input.
+            _Out.stats["in_theorem_class_" + kind] = _Out.stats.get("in_theorem_class_" + kind, 0) + 1
             if len(other) > 4 and other[4] == "value_bad":
-                _Out.stats["theorem_contradicted"] = _Out.stats.get("theorem_contradicted", 0) + 1
+                _Out.stats["theorem_contradicted_" + kind] = _Out.stats.get("theorem_contradicted_" + kind, 0) + 1
+                _tie_report()
                 return False
+        _tie_report()
         if self[2] == other[2]:
             _Out.stats["structural"] += 1
             return True
@@ -1013,15 +1053,16 @@ class _Out(list):
 
 
 def canon_model(case, rep):
+    in_class = None
     if case["kind"] == "cond":
-        # (ok <order-sensitive> <answer>): the answer of the complete Algorithm 3
-        order_sensitive, rep = rep[1] == "true", rep[2]
+        # (ok <order-sensitive> <in-class> <answer>): the answer of the complete Algorithm 3 and `CtfTr.ctfTRInClass` = the
+        # decidable hypotheses of the value theorem of Algorithm 3 (ctfTR_sound_partial)
+        order_sensitive, in_class, rep = rep[1] == "true", rep[2] == "true", rep[3]
         if order_sensitive:
             # the verdict of Algorithm 3's final checks depends on which of two entries of a Python dict comprehension
             # over a set-ordered list wins (CtfTr.finalChecksOrderSensitive): only the validator's verdict is compared
             _Out.stats["order_sensitive"] = _Out.stats.get("order_sensitive", 0) + 1
             return _Out(["valid-only", "invalid" if (rep[0] == "err" and rep[1] == "invalid") else "accepted"])
-    in_class = None
     if case["kind"] == "uncond":
         # (ok <in-class> <answer>): `CtfTr.ctfTRuInClass` = the decidable hypotheses of the value theorem of Algorithm 2
         in_class, rep = rep[1] == "true", rep[2]
@@ -1033,6 +1074,7 @@ def canon_model(case, rep):
     out = _Out(["ok", _digest(case, enc), E.to_str_tree(enc), "none" if ev == "none" else sorted(E.to_str_tree(ev), key=json.dumps)])
     if in_class is not None:
         out.append("in_class" if in_class else "out_class")
+        out.append(case["kind"])
     return out
 
 
@@ -1163,8 +1205,11 @@ def signature(case):
                      event variable that is not subscripted by z and is not z               [C19 factorisation literal-bound];
                      ctfTR: also a kept literal subscript named like an OUTCOME (the denominator sums over that name)
       miss_all/some  ctfTR only: the outcome Y_x is looked up in the ancestral components under its raw name, but the
-                     components store ||Y_x|| computed in the graph whose edges out of the conditioned ancestors are cut;
-                     miss = raw name differs from the stored one (for all / for some outcomes)
+                     components store the members of An(W_t), W_t an outcome or a condition, computed in the graph whose
+                     edges out of the conditioned ancestors of W_t are cut (Def. 2.1 / 4.2, as y0 builds them: a
+                     self-intervened Y_y keeps its subscript); miss = the raw variable is a member of none of these sets
+                     (for all / for some outcomes).  EXACTLY the complement of the model's class `CtfTr.OutcomesFound`
+                     (miss_all <=> the derived event D* is empty), cross-checked by tools/c09_errsearch.py --sig
       has_none       some variable has no value
       simplify_risk  a self-intervened variable Y_y and a valueless variable with the same name Y
       domain_drops_bi  a domain graph lacks a bidirected edge of the target (Algorithm 4's ValueError)
@@ -1198,11 +1243,25 @@ def signature(case):
             literal_bound = True
     miss = []
     if conds:
-        minc = {_min_var(di, c) for c in conds}
-        for v in outs:
-            W, S = _raw(v)
-            cx = {c[0] for c in minc if c in _ctf_ancestors(di, W, S)}
-            miss.append((W, S) not in _ctf_ancestors([e for e in di if e[0] not in cx], W, S))
+        def an_of(edges, v):       # get_ancestors_of_counterfactual, Def. 2.1 (the harness's own graph code)
+            W, S = v
+            if not S:
+                return {(a, frozenset()) for a in FE.ancestors(edges, {W})}
+            X = {z for z, _ in S}
+            below = FE.ancestors([e for e in edges if e[0] not in X], {W})
+            return {(a, frozenset((z, s_) for z, s_ in S if z in FE.ancestors(edges, {a}, removed_in=X))) for a in below}
+
+        def minimised(v):          # ||Y_x||: a subscript stays iff it is an ancestor of Y in the graph without the edges into X
+            W, S = v
+            keep = FE.ancestors(di, {W}, removed_in={z for z, _ in S})
+            return W, frozenset((z, s_) for z, s_ in S if z in keep)
+
+        minc = {minimised(_raw(c)) for c in conds}
+        stored = set()             # the members of every ancestral set An(W_t) in G with the edges out of X_*(W_t) cut
+        for r in {_raw(v) for v in outs + conds}:
+            cx = {c[0] for c in minc if c in an_of(di, r)}
+            stored |= an_of([e for e in di if e[0] not in cx], r)
+        miss = [_raw(v) not in stored for v in outs]
     refl_names = {int(v[1]) for v in vars_ if any(int(z) == int(v[1]) for z, _ in v[4])}
     return {"reflexive": reflexive, "two_values": two_values, "multi_world": multi_world, "literal_bound": literal_bound,
             "has_none": any(v[2] == "n" for v in vars_), "miss_all": bool(miss) and all(miss),
@@ -1233,7 +1292,10 @@ def finding_key(case, res):
                 and "at _validate_transport_unconditional_counterfactual_query_input:" in fail and sig["miss_all"]):
             cls = "crash:ctfTR-derived-event-rejected"
         elif (kind == "cond" and fail.startswith("KeyError (") and "at least one variable in the event" in fail
-              and "at _validate_transport_conditional_counterfactual_query_line_4_output:" in fail and miss):
+              and "at _validate_transport_conditional_counterfactual_query_line_4_output:" in fail and sig["miss_some"]):
+            # check 5 of the output check, with an outcome dropped from a NON-empty D* (miss_all is the empty D*, which
+            # Algorithm 2's validator rejects before line 4; Lean: with OutcomesFound = no miss - Algorithm 3 never
+            # raises, ctfTR_no_internal_error_plain_partial)
             cls = "crash:ctfTR-final-check"
         elif (fail.startswith("TypeError (") and "at _any_variables_with_inconsistent_values:" in fail
               and sig["simplify_risk"]):
@@ -1269,7 +1331,7 @@ MANIFEST = {
     "text": ("Partial. Lean theorems about the model Y0.Model.CtfTr of api.py (validators of ctfTRu / ctfTR as decision "
              "functions, Algorithm 4, Algorithm 2 composed from the `ctf` family's models of SIMPLIFY / counterfactual "
              "ancestors / ancestral components / ctf-factors and the `tian` family's model of IDENTIFY; Algorithm 3 complete: "
-             "derivation of D*, Algorithm 2 on it, line 4 and the five final checks), 51 theorems in Props/C09 + Props/C09Sound (ctfTRu_correct_partial states the three clauses for Algorithm 2 together): THE VALUE CLAUSE FOR ALGORITHM 2 IS PROVED (ctfTRu_sound_partial): whenever ctfTRu answers (x, ev) for a validated input without a self-intervened variable whose simplified event has no valueless item and lies in the decidable class ctfSoundClass, then in every family of functional SCMs compatible with the target graph and the declared domains, at every valuation carrying the returned event's values, x evaluated on the declared domain distributions equals the target probability of the queried event - composed, with no link left as a hypothesis, from C19 (SIMPLIFY preserves the probability; the ctf-factor factorisation, here as a sum of products of c-factors: ctf_factorisation_cfactors), the syntactic link between line 2 of Algorithm 2 and the factorisation, C17 (IDENTIFY, c-factor routines) through sigmaTR_sound_family (Algorithm 4 returns Q*[district] of the TARGET model) and the transportability lemma cfactor_transportability (no selection node into the district and no policy variable in it => same c-factor in source and target), with a concrete two-domain family as non-vacuity witness; ctfTRu_sound_free_partial / ctfTRu_sound_fun cover valueless items read as free variables; ctfTR_sound_of_parts reduces the value clause of Algorithm 3 to two named marginalisation-and-independence identities. the validators reject with the documented classes only and an accepted "
+             "derivation of D*, Algorithm 2 on it, line 4 and the five final checks), 62 theorems in Props/C09 + Props/C09Sound (ctfTRu_correct_partial states the three clauses for Algorithm 2 together): THE VALUE CLAUSE FOR ALGORITHM 2 IS PROVED (ctfTRu_sound_partial): whenever ctfTRu answers (x, ev) for a validated input without a self-intervened variable whose simplified event has no valueless item and lies in the decidable class ctfSoundClass, then in every family of functional SCMs compatible with the target graph and the declared domains, at every valuation carrying the returned event's values, x evaluated on the declared domain distributions equals the target probability of the queried event - composed, with no link left as a hypothesis, from C19 (SIMPLIFY preserves the probability; the ctf-factor factorisation, here as a sum of products of c-factors: ctf_factorisation_cfactors), the syntactic link between line 2 of Algorithm 2 and the factorisation, C17 (IDENTIFY, c-factor routines) through sigmaTR_sound_family (Algorithm 4 returns Q*[district] of the TARGET model) and the transportability lemma cfactor_transportability (no selection node into the district and no policy variable in it => same c-factor in source and target), with a concrete two-domain family as non-vacuity witness; ctfTRu_sound_free_partial / ctfTRu_sound_fun cover valueless items read as free variables; THE VALUE CLAUSE FOR ALGORITHM 3 IS PROVED inside the decidable class ctfTRSoundClass (ctfTR_sound_partial: one world across all ancestral components, outcomes found under their own name, no self-intervention, no literal subscript naming a summed vertex - a predicate on graph and query only; every compatible family in which the conditions have positive probability; the returned fraction equals P*(outcomes and conditions)/P*(conditions)) - the two identities of ctfTR_sound_of_parts are discharged by a syntax-free semantic core (CondSem / cond_parts: composition axiom for the edges cut at conditioned ancestors, consistency of the members of the ancestral sets, marginalisation over valueless ancestors and over the outcomes, independence of the ancestral components without an outcome) and J = Q[V(D*)] (dstar_prob_eq_cfactor); ctfTR_zero_sound_partial (Zero only for impossible events, one-world D*) and ctfTR_correct_partial (the three clauses together) complete Algorithm 3; theorem and oracle are tied on every in-class conditional case. the validators reject with the documented classes only and an accepted "
              "input has the stated shape (validateU_error_class, validateC_error_class, validateU_accepts, validateC_strict); "
              "an 'invalid input' outcome is exactly a rejection by the procedure's own validator and an accepted input is "
              "answered, refused, or ends in a non-validation error (ctfTRu_invalid_iff, ctfTRu_trichotomy, "
@@ -1287,8 +1349,8 @@ MANIFEST = {
              "Zero() and mentions only graph vertices and variables of the domain distributions), and an "
              "expression returned by Algorithm 4 denotes Q[district] of the domain's model (sigmaTR_sound, via C17 "
              "cfactor_sound / tian_sound). NOT "
-             "proved: the value clause outside ctfSoundClass (FALSE of the current code on the inputs of the open findings value:*), the value clause of Algorithm 3 (ctfTR_sound: reduced to two named identities; false on the findings cond:value:outcome-*), and the absence of non-validation errors in full "
-             "(ctf_no_internal_error: false on the crash classes of the findings, open on two further input classes of Algorithm 3). These clauses are decided on every run by the correspondence (validators exact; "
+             "proved: the value clause outside ctfSoundClass (FALSE of the current code on the inputs of the open findings value:*), the value clause of Algorithm 3 outside ctfTRSoundClass (false on the findings cond:value:*; not decided for a literal subscript naming an outcome and multi-world queries the code happens to answer correctly), and the absence of non-validation errors in full "
+             "(ctf_no_internal_error: false on the crash classes of the findings; for Algorithm 3 the two further input classes are decided: DstarOneWorld is not needed (ctfTR_no_internal_error_found_partial), OutcomeNotCondition is not needed for distributions over plain variables (ctfTR_no_internal_error_plain_partial) and needed for arbitrary ones (witness a3Shared, open finding crash:ctfTR-final-check:population-world), so OutcomesFound is the only crash class of Algorithm 3 for declared domains). These clauses are decided on every run by the correspondence (validators exact; "
              "Algorithms 2 and 3: verdict, returned event and exact value of the expression) and by the exact functional-SCM "
              "oracle (noise-space enumeration of P*(event), policies as fresh mechanisms): trichotomy, zero-soundness and "
              "value on every answered case."),
